@@ -952,6 +952,41 @@ def _(T):
     return out
 
 
+@extractor("parse_mask")
+def _(T):
+    """`parse_mask` (pysersic.py): what is stored when no mask is given, and how a given mask is turned into the stored
+    "pixel is used" array.  Recognised forms only; anything else is a Miss."""
+    tree, src = T["pysersic.py"]
+    fn = find_func(tree, "parse_mask")
+    args = [a.arg for a in fn.args.args]
+    if len(args) != 2:
+        raise Miss("parse_mask signature")
+    mk, dt = args
+    body = [st for st in fn.body if not (isinstance(st, ast.Expr) and isinstance(st.value, ast.Constant))]
+    if len(body) != 1 or not isinstance(body[0], ast.If) or len(body[0].body) != 1 or len(body[0].orelse) != 1 \
+            or not isinstance(body[0].body[0], ast.Return) or not isinstance(body[0].orelse[0], ast.Return):
+        raise Miss("parse_mask is not `if mask is None: return … else: return …`")
+    test = (ast.get_source_segment(src, body[0].test) or "").replace(" ", "")
+    if test != f"{mk}isNone":
+        raise Miss(f"parse_mask tests `{test}`")
+    d = (ast.get_source_segment(src, body[0].body[0].value) or "").replace(" ", "")
+    g = (ast.get_source_segment(src, body[0].orelse[0].value) or "").replace(" ", "").replace("\n", "")
+    default = {f"jnp.ones_like({dt}).astype(jnp.bool_)": "allUsed", f"jnp.ones_like({dt}).astype(bool)": "allUsed",
+               f"jnp.ones({dt}.shape,dtype=bool)": "allUsed", f"jnp.ones({dt}.shape).astype(bool)": "allUsed",
+               f"jnp.asarray({dt}).astype(bool)": "dataNonzero", f"jnp.array({dt}).astype(bool)": "dataNonzero",
+               f"jnp.asarray({dt}).astype(jnp.bool_)": "dataNonzero"}.get(d)
+    given = {f"jnp.logical_not(jnp.array({mk}.astype(float))).astype(jnp.bool_)": "zeroUsed",
+             f"jnp.logical_not(jnp.array({mk}.astype(float))).astype(bool)": "zeroUsed",
+             f"jnp.logical_not(jnp.array({mk}.astype(bool)))": "zeroUsed",
+             f"jnp.logical_not(jnp.asarray({mk}).astype(bool))": "zeroUsed",
+             f"(1-jnp.array({mk}.astype(float))).astype(jnp.bool_)": "oneMinusNonzeroUsed",
+             f"(1-{mk}.astype(float)).astype(bool)": "oneMinusNonzeroUsed",
+             f"(1-jnp.array({mk}.astype(float))).astype(bool)": "oneMinusNonzeroUsed"}.get(g)
+    if default is None or given is None:
+        raise Miss(f"parse_mask returns `{d}` / `{g}`")
+    return dict(default=default, given=given)
+
+
 @extractor("map_init")
 def _(T):
     """where `find_MAP` starts the optimisation: the `init_loc_fn` of its AutoDelta guide, and the rounding of the returned values"""
@@ -1134,6 +1169,11 @@ def emit(c):
     A("/-- default physical ranges of linked parameters (multiband.py), substring rules in source order -/")
     A("def mbRangeRules : List MultiBand.RangeRule :=")
     A("  " + lean_list([f"⟨{lean_str(r[0])}, {lean_q(r[1])}, {lean_q(r[2])}, {b(r[3])}⟩" for r in c["mb_range_rules"]]))
+    A("")
+    pm = c["parse_mask"]
+    A("/-- parse_mask (pysersic.py): the stored mask when none is given, and how a given mask value decides whether the pixel is used -/")
+    A(f"def maskDefault : Validate.MaskDefault := .{pm['default']}")
+    A(f"def maskGiven : Validate.MaskGiven := .{pm['given']}")
     A("")
     pb = c["pixel_box"]
     A("/-- PixelRenderer.__init__: the oversampled box `[x_os_lo, x_os_hi) × [y_os_lo, y_os_hi)` as integer expressions of the image sides and os_pixel_size -/")
